@@ -6,7 +6,7 @@ import sys
 from pathlib import Path
 
 sys.path.insert(0, str(Path(__file__).resolve().parents[1]))
-from harness.lib.core import GEN, LEAN, Ctx, lean_lock, sh  # noqa: E402
+from harness.lib.core import GEN, LEAN, Ctx, all_driver_exes, lean_lock, sh, sync_lake_files  # noqa: E402
 import harness.extract as ex  # noqa: E402
 
 
@@ -21,8 +21,8 @@ def main() -> int:
     ctx = Ctx("setup", "quick", 0)
     with lean_lock():
         regenerate_all(ctx)
-        exes = [l.split('"')[1] for l in (LEAN / "lakefile.toml").read_text().splitlines() if l.startswith("name = \"drv_")]
-        rc, out = sh(["lake", "build", "PrimaiteModel", *exes], cwd=LEAN, timeout=3000)
+        sync_lake_files()
+        rc, out = sh(["lake", "build", "PrimaiteModel", *all_driver_exes()], cwd=LEAN, timeout=3000)
     print(out[-3000:])
     bad = [o for o in ctx.obligations if not o["ok"]]
     for o in bad:
